@@ -119,7 +119,7 @@ impl SyncTrackerRes {
             debug!("Could not obtain reflect_component for {:?}", name);
             return false;
         };
-        let Some(sync_entity) = world.entity(e_id).get::<SyncEntity>() else {
+        let Some(sync_entity) = world.get_entity(e_id).and_then(|e| e.get::<SyncEntity>()) else {
             debug!(
                 "Could not find entity {:?} to apply comopnent change of type {:?}",
                 e_id, name
